@@ -9,8 +9,13 @@ package caches
 import "time"
 
 // VerifC21Park makes background sweepers of caches created from now on sleep
-// practically forever; the harness drives sweepExpired itself.
-func VerifC21Park() { scanTime = "100000h" }
+// practically forever and gives entries a practically unlimited lifetime: an
+// entry expires only when the harness says so (VerifC21Expire), never because a
+// slow machine let the real 60 s default run out in the middle of a behaviour.
+func VerifC21Park() {
+	scanTime = "100000h"
+	expireTime = "100000h"
+}
 
 func VerifC21Peek(id int, key any) (any, bool) {
 	cacheLock.Lock()
